@@ -115,9 +115,15 @@ def gen_case(rng, uid):
             c_["fail_kind"] = "base"
         elif r_ < 0.65:
             c_["fail_kind"] = "type"           # the constructor fails with a TypeError of its own
+        others_ = [x[1] for x in eligible if x[1] is not c_]
+        if others_ and rng.random() < 0.35:
+            # a healthy class carries the same MODE_NAME as the one that cannot be constructed (a broken copy left in place)
+            rng.choice(others_)["mode_name"] = c_["mode_name"]
         applied = "ctor"
     fms = rng.random() < 0.5
     sel = rng.choice(["chooser-default", "chooser-default", "chooser-sim", "auto-selector", "auto-selector-unknown"])
+    if applied == "duplicate" and fms and rng.random() < 0.6:
+        sel = "auto-selector"          # tolerated duplicates are mostly picked through the dashboard string
     style = rng.choice(["api", "api", "run"])
     periods = []
     for _ in range(rng.choice([1, 2, 3]) if rng.random() > 0.04 else 9):       # now and then many periods on one selector
@@ -390,6 +396,7 @@ def run_case(acc, case):
         rng = random.Random(case["sel_seed"])
         names = sorted(A["healthy"])
         chosen_name = ch["default"] if ch["default"] != "None" else None
+        exact_pick = None
         sel = case["select"]
         if sel == "chooser-sim" and names:
             pick = rng.choice(names + ["None"])
@@ -400,6 +407,14 @@ def run_case(acc, case):
             acc.ev("select:chooser-sim")
         elif sel == "auto-selector" and names:
             pick = rng.choice(names)
+            offered = sorted(k for k in modes if isinstance(k, str))
+            if faults and offered and rng.random() < 0.6:
+                # any key the selector offers names a mode - also the shared name of tolerated duplicates and whatever key
+                # the other duplicate is offered under: the mode that runs is the one offered under that key
+                dup_keys = [k for k in offered if getattr(modes[k], "MODE_NAME", None) in A["dups"]]
+                pick = rng.choice(dup_keys if dup_keys and rng.random() < 0.8 else offered)
+                exact_pick = getattr(modes[pick], "ident", None)
+                acc.ev("select:auto-selector-by-any-offered-key")
             wpilib.SmartDashboard.putString("Auto Selector", pick)
             chosen_name = pick
             acc.ev("select:auto-selector")
@@ -408,11 +423,13 @@ def run_case(acc, case):
             acc.ev("select:auto-selector-unknown")
         else:
             acc.ev("select:chooser-default")
-        if chosen_name is not None and chosen_name not in A["healthy"]:
+        if chosen_name is not None and chosen_name not in A["healthy"] and exact_pick is None:
             # preselected entry of a tolerated faulty package (duplicate / several defaults): which instance runs is
             # not specified, only that exactly one mode gets the whole lifecycle
             chosen_name = "<dup>"
         chosen = A["healthy"].get(chosen_name) if chosen_name not in (None, "<dup>") else None
+        if exact_pick is not None:
+            chosen = exact_pick
         if chosen_name is None:
             acc.ev("select:none")
         any_chosen_period = False
@@ -423,16 +440,26 @@ def run_case(acc, case):
                 if r < 0.5:
                     wpilib.SmartDashboard.putString("Auto Selector", rng.choice(["", "nosuchmode"]))
                     chosen_name = None
+                    exact_pick = None
                     cur = read_chooser()
                     pick = cur.get("selected") if cur.get("selected") in names + ["None"] else cur["default"]
                     chosen_name = None if pick in (None, "None") else pick
                 else:
                     pick = rng.choice(names)
+                    exact_pick = None
+                    if A["dups"] and rng.random() < 0.6:
+                        dup_keys = [k for k in sorted(k_ for k_ in modes if isinstance(k_, str)) if getattr(modes[k], "MODE_NAME", None) in A["dups"]]
+                        if dup_keys:
+                            pick = rng.choice(dup_keys)
+                            exact_pick = getattr(modes[pick], "ident", None)
+                            acc.ev("select:auto-selector-by-any-offered-key")
                     wpilib.SmartDashboard.putString("Auto Selector", pick)
                     chosen_name = pick
-                if chosen_name is not None and chosen_name not in A["healthy"]:
+                if chosen_name is not None and chosen_name not in A["healthy"] and exact_pick is None:
                     chosen_name = "<dup>"
                 chosen = A["healthy"].get(chosen_name) if chosen_name not in (None, "<dup>") else None
+                if r >= 0.5 and exact_pick is not None:
+                    chosen = exact_pick
                 acc.ev("reselected-between-periods")
             del sel_rt.LOG[:]
             if chosen is not None and chosen in A["falsy"]:
